@@ -110,7 +110,8 @@ class C14(Check):
             'pairs of a signature sample plus random sequences of 3-12 calls; caches: default dict, logging MutableMapping with '
             'scripted evictions, LRU of size 1-3, a hostile mapping; plus concurrent histories (C06\'s scenarios, 30 % with an owner that '
             'runs its stopped loop again later) after which every key is requested once more, everything is evicted, and every key '
-            'is requested again; non-trivial = the sequence contains a model hit between non-identical '
+            'is requested again; calls made from plain coroutines, from except blocks, from __aexit__ and as tasks; a keep-warm helper '
+            'started by the wrapped function refreshes its entry after an eviction; non-trivial = the sequence contains a model hit between non-identical '
             'signatures (equal-but-distinct objects / reordered keywords) or an eviction followed by a recomputation; '
             'distinct = distinct sequences')
 
